@@ -135,6 +135,14 @@ pub struct Knobs {
     pub p_cbranch_ind: (u64, u64),
     /// minimal number of target hints of an indirect jump (at most 2 are generated)
     pub min_hints: u64,
+    /// chance (num, den) that a call to an extern symbol is the SECOND jump of its block, after a
+    /// conditional branch (`[CBranch; Call]`, a conditionally executed call such as ARM `blne f`).
+    /// OFF by default ((0, 1) draws nothing): the shape is outside Cfg!WellFormed.
+    pub p_cond_call: (u64, u64),
+    /// shuffle the LISTING order of the non-entry blocks of every function (the entry block stays
+    /// first, TIDs and control flow are unchanged), so that listing order and execution order are
+    /// independent.  OFF by default (draws nothing).
+    pub shuffle_blocks: bool,
 }
 impl Default for Knobs {
     fn default() -> Knobs {
@@ -142,7 +150,7 @@ impl Default for Knobs {
             subs: (1, 3), blocks: (1, 5), w_branch: 20, w_cbranch: 25, w_cbranch_ret: 5, w_return: 12, w_ext_call: 25,
             w_int_call: 10, w_callind: 4, w_branchind: 4, w_nojump: 2, w_callother: 1, w_single_cbranch: 1,
             p_no_ret: 10, p_empty_sub: 4, p_forward: 60, sub_cconvs: vec!["".to_string()], p_chain: 0,
-            p_cbranch_ind: (1, 8), min_hints: 0,
+            p_cbranch_ind: (1, 8), min_hints: 0, p_cond_call: (0, 1), shuffle_blocks: false,
         }
     }
 }
@@ -254,6 +262,10 @@ pub fn gen_program(rng: &mut Rng, k: &Knobs, externs: &[ExternSymbol], hooks: &m
                     jmps.push(Term { tid: next_tid(&mut instr), term: Jmp::Return(e) })
                 }
                 4 => {
+                    if k.p_cond_call.0 > 0 && rng.chance(k.p_cond_call.0, k.p_cond_call.1) {
+                        let c = hooks.cond(rng, &ctx);
+                        jmps.push(Term { tid: next_tid(&mut instr), term: Jmp::CBranch { target: pick_target(rng), condition: c } });
+                    }
                     let i = hooks.pick_extern(rng, &ctx, externs);
                     let r = ret_site(rng);
                     jmps.push(Term { tid: next_tid(&mut instr), term: Jmp::Call { target: externs[i].tid.clone(), return_: r } });
@@ -285,6 +297,9 @@ pub fn gen_program(rng: &mut Rng, k: &Knobs, externs: &[ExternSymbol], hooks: &m
                 }
             }
             blocks.push(Term { tid: blk_tid(s, b), term: Blk { defs, jmps, indirect_jmp_targets: ind } });
+        }
+        if k.shuffle_blocks && blocks.len() > 2 {
+            rng.shuffle(&mut blocks[1..]);
         }
         let cc = rng.pick(&k.sub_cconvs).clone();
         subs.insert(sub_tid(s), Term {
